@@ -11,7 +11,7 @@ const c18HydraPath = "app/core/hydra/hydra.go"
 
 func init() {
 	Register("C18", Extractor{Import: "Hv.Props.C18", Type: "Hv.C18.Facts", Run: func(fs *Facts) {
-		names := []string{"lookupLoadOrStore", "enterUnderCondLock", "everyEntrantCounts", "leaveShape", "decDeleteAtomic", "createInsideOnly", "callbackDeletes"}
+		names := []string{"lookupLoadOrStore", "enterUnderCondLock", "everyEntrantCounts", "leaveShape", "decDeleteAtomic", "createInsideOnly", "callbackCompares"}
 		f, err := Load(c18HydraPath)
 		if err != nil {
 			fs.Err("%v", err)
@@ -22,7 +22,7 @@ func init() {
 		}
 		fn := f.Func("hydra", "SummonSwamp")
 		cb := f.Func("hydra", "closeEventCallbackFunction")
-		if fn == nil || cb == nil {
+		if fn == nil {
 			for _, n := range names {
 				fs.Tri(n, Unknown, c18HydraPath)
 			}
@@ -37,13 +37,64 @@ func init() {
 		fs.Tri("lookupLoadOrStore", TriOf(look >= 0 && cast == look+1 && len(f.CallsSuffix(fn, "summoningSwamps.LoadOrStore")) == 1 &&
 			len(f.CallsSuffix(f.AST, "summoningSwamps.Store")) == 0), where)
 
-		// enter: Lock; for waiter.ready { select { ctx.Done: Broadcast; Unlock; return | default: count++; Wait } }; ready = true; Unlock
+		isInc := func(st ast.Stmt) bool {
+			s := f.Str(st)
+			return s == "atomic.AddInt32(&waiter.count, 1)" || s == "waiter.count++"
+		}
+		isDec := func(st ast.Stmt) bool {
+			s := f.Str(st)
+			return s == "atomic.AddInt32(&waiter.count, -1)" || s == "waiter.count--"
+		}
+		isZeroDelete := func(st ast.Stmt) bool {
+			is, ok := st.(*ast.IfStmt)
+			if !ok || is.Else != nil {
+				return false
+			}
+			c := f.Str(is.Cond)
+			if c != "atomic.LoadInt32(&waiter.count) == 0" && c != "waiter.count == 0" {
+				return false
+			}
+			ib := c17Plain(f, is.Body.List)
+			return len(ib) == 1 && f.Str(ib[0]) == "h.summoningSwamps.Delete(swampName.Get())"
+		}
+		// counted lookup: <mu>.Lock(); LoadOrStore; cast; count++; <mu>.Unlock()   (one mutex of the hydra)
+		countedLookup, lookupMu := false, ""
+		if look >= 1 && cast+2 < len(top) {
+			l := f.Str(top[look-1])
+			if strings.HasPrefix(l, "h.") && strings.HasSuffix(l, ".Lock()") && isInc(top[cast+1]) &&
+				f.Str(top[cast+2]) == strings.TrimSuffix(l, ".Lock()")+".Unlock()" {
+				countedLookup, lookupMu = true, strings.TrimSuffix(l, ".Lock()")
+			}
+		}
+		// the release closure: <mu>.Lock(); count--; if count == 0 { Delete }; <mu>.Unlock()  under the same mutex
+		releaseName := ""
+		for _, st := range top {
+			as, ok := st.(*ast.AssignStmt)
+			if !ok || len(as.Lhs) != 1 || len(as.Rhs) != 1 {
+				continue
+			}
+			fl, ok := as.Rhs[0].(*ast.FuncLit)
+			if !ok {
+				continue
+			}
+			b := c17Plain(f, fl.Body.List)
+			if len(b) == 4 && lookupMu != "" && f.Str(b[0]) == lookupMu+".Lock()" && isDec(b[1]) && isZeroDelete(b[2]) && f.Str(b[3]) == lookupMu+".Unlock()" {
+				releaseName = f.Str(as.Lhs[0])
+			}
+		}
+		isRelease := func(st ast.Stmt) bool { return releaseName != "" && f.Str(st) == releaseName+"()" }
+
+		// enter: Lock; for waiter.ready { select { ctx.Done: Broadcast; Unlock; [release();] return | default: [count++;] Wait } }; ready = true; Unlock
 		lock := idx("waiter.cond.L.Lock()")
-		enterOK := false
-		incInLoop, incTotal := 0, 0
+		enterOK, loopCounts, giveUpReleases := false, false, false
+		incTotal := 0
 		ast.Inspect(fn, func(n ast.Node) bool {
-			if c, ok := n.(*ast.CallExpr); ok && f.Str(c) == "atomic.AddInt32(&waiter.count, 1)" {
-				incTotal++
+			if st, ok := n.(ast.Stmt); ok && (isInc(st)) {
+				if _, isExpr := st.(*ast.ExprStmt); isExpr {
+					incTotal++
+				} else if _, isIncDec := st.(*ast.IncDecStmt); isIncDec {
+					incTotal++
+				}
 			}
 			return true
 		})
@@ -57,13 +108,21 @@ func init() {
 							cc := cl.(*ast.CommClause)
 							b := c17Plain(f, cc.Body)
 							if cc.Comm != nil && f.Str(cc.Comm) == "<-ctx.Done()" {
-								okDone = len(b) == 3 && f.Str(b[0]) == "waiter.cond.Broadcast()" && f.Str(b[1]) == "waiter.cond.L.Unlock()" &&
-									strings.HasPrefix(f.Str(b[2]), "return nil, ctx.Err()")
+								if len(b) == 3 && f.Str(b[0]) == "waiter.cond.Broadcast()" && f.Str(b[1]) == "waiter.cond.L.Unlock()" &&
+									strings.HasPrefix(f.Str(b[2]), "return nil, ctx.Err()") {
+									okDone = true
+								}
+								if len(b) == 4 && f.Str(b[0]) == "waiter.cond.Broadcast()" && f.Str(b[1]) == "waiter.cond.L.Unlock()" &&
+									isRelease(b[2]) && strings.HasPrefix(f.Str(b[3]), "return nil, ctx.Err()") {
+									okDone, giveUpReleases = true, true
+								}
 							}
 							if cc.Comm == nil {
-								okDefault = len(b) == 2 && f.Str(b[0]) == "atomic.AddInt32(&waiter.count, 1)" && f.Str(b[1]) == "waiter.cond.Wait()"
-								if okDefault {
-									incInLoop++
+								if len(b) == 2 && isInc(b[0]) && f.Str(b[1]) == "waiter.cond.Wait()" {
+									okDefault, loopCounts = true, true
+								}
+								if len(b) == 1 && f.Str(b[0]) == "waiter.cond.Wait()" {
+									okDefault = true
 								}
 							}
 						}
@@ -72,15 +131,18 @@ func init() {
 				}
 			}
 		}
-		fs.Tri("enterUnderCondLock", TriOf(enterOK && lock == cast+1), where)
+		fs.Tri("enterUnderCondLock", TriOf(enterOK), where)
 		counts := Unknown
-		if enterOK && incTotal == 1 && incInLoop == 1 {
+		switch {
+		case enterOK && incTotal == 1 && loopCounts && !countedLookup:
 			counts = No // only waiters count themselves
+		case enterOK && incTotal == 1 && !loopCounts && countedLookup && giveUpReleases:
+			counts = Yes // every entrant counts itself atomically with the lookup, every exit gives it back
 		}
 		fs.Tri("everyEntrantCounts", counts, where)
 
-		// deferred block
-		leave := Unknown
+		// deferred block: Lock; ready = false; Broadcast; Unlock; then (AddInt32(-1); if == 0 { Delete }) | release()
+		leave, atomicDel := Unknown, Unknown
 		for _, st := range top {
 			d, ok := st.(*ast.DeferStmt)
 			if !ok {
@@ -91,25 +153,19 @@ func init() {
 				continue
 			}
 			b := c17Plain(f, fl.Body.List)
-			ok = len(b) == 6 &&
+			head := len(b) >= 5 &&
 				f.Str(b[0]) == "waiter.cond.L.Lock()" && f.Str(b[1]) == "waiter.ready = false" &&
-				f.Str(b[2]) == "waiter.cond.Broadcast()" && f.Str(b[3]) == "waiter.cond.L.Unlock()" &&
-				f.Str(b[4]) == "atomic.AddInt32(&waiter.count, -1)"
-			if ok {
-				is, isIf := b[5].(*ast.IfStmt)
-				ok = isIf && f.Str(is.Cond) == "atomic.LoadInt32(&waiter.count) == 0" && is.Else == nil
-				if ok {
-					ib := c17Plain(f, is.Body.List)
-					ok = len(ib) == 1 && f.Str(ib[0]) == "h.summoningSwamps.Delete(swampName.Get())"
-				}
+				f.Str(b[2]) == "waiter.cond.Broadcast()" && f.Str(b[3]) == "waiter.cond.L.Unlock()"
+			switch {
+			case head && len(b) == 6 && isDec(b[4]) && isZeroDelete(b[5]):
+				leave, atomicDel = Yes, No // two separate atomic operations, no lock shared with the lookup
+			case head && len(b) == 5 && isRelease(b[4]):
+				leave, atomicDel = Yes, Yes
+			default:
+				leave = No
 			}
-			leave = TriOf(ok)
 		}
 		fs.Tri("leaveShape", leave, where)
-		atomicDel := Unknown
-		if leave == Yes {
-			atomicDel = No // two separate atomic operations, no lock shared with the lookup
-		}
 		fs.Tri("decDeleteAtomic", atomicDel, where)
 
 		// create/store only inside, after ready = true
@@ -120,7 +176,42 @@ func init() {
 			stores[0].Pos() > creates[0].End() && stores[0].End() < fn.End()
 		fs.Tri("createInsideOnly", TriOf(inside), where)
 
-		cbb := c17Plain(f, cb.Body.List)
-		fs.Tri("callbackDeletes", TriOf(len(cbb) == 1 && f.Str(cbb[0]) == "h.swamps.Delete(swampName.Get())"), c14Where(f, cb))
+		// close callback: swamps.Delete(name) (by name) or a per-instance closure with CompareAndDelete(name, inst)
+		cmp, whereCb := Unknown, where
+		byName := false
+		if cb != nil {
+			whereCb = c14Where(f, cb)
+			cbb := c17Plain(f, cb.Body.List)
+			byName = len(cbb) == 1 && f.Str(cbb[0]) == "h.swamps.Delete(swampName.Get())"
+		}
+		cn := f.Func("hydra", "createNewSwamp")
+		usesNamed, usesCompare := false, false
+		if cn != nil {
+			for _, c := range f.Calls(cn, "swamp.New") {
+				for _, a := range c.Args {
+					if f.Str(a) == "h.closeEventCallbackFunction" {
+						usesNamed = true
+					}
+				}
+			}
+			ast.Inspect(cn, func(n ast.Node) bool {
+				if fl, ok := n.(*ast.FuncLit); ok {
+					for _, c := range f.CallsSuffix(fl, "h.swamps.CompareAndDelete") {
+						if len(c.Args) == 2 {
+							usesCompare = true
+							whereCb = c14Where(f, c)
+						}
+					}
+				}
+				return true
+			})
+		}
+		switch {
+		case usesNamed && byName && !usesCompare:
+			cmp = No
+		case usesCompare && !usesNamed && len(f.CallsSuffix(f.AST, "h.swamps.Delete")) == 0:
+			cmp = Yes
+		}
+		fs.Tri("callbackCompares", cmp, whereCb)
 	}})
 }
